@@ -124,26 +124,71 @@ class _P:
             self.eat(); parts.append(self.eat())
         return parts
 
+    # reader side: flags (last path component, required other component or None) -> Gallina variable; integers likewise
+    flags = {"has_crc": ("page_header", "has_crc"), "verify_checksums": (None, "verify")}
+    ints = {"crc": ("page_header", "stored")}
+
     def atom(self):
         p = self.path()
         last = p[-1]
-        if last == "has_crc" and "page_header" in p:
-            return "has_crc"
-        if last == "verify_checksums":
-            return "verify"
-        if last == "crc" and "page_header" in p and self.peek() in ("<", ">", "<=", ">=", "==", "!="):
+        if last in self.flags and (self.flags[last][0] is None or self.flags[last][0] in p):
+            return self.flags[last][1]
+        if last in self.ints and (self.ints[last][0] is None or self.ints[last][0] in p) and self.peek() in ("<", ">", "<=", ">=", "==", "!="):
+            v = self.ints[last][1]
             op = self.eat(); neg = False
             if self.peek() == "-":
                 self.eat(); neg = True
             lit = self.eat()
             if not re.match(r"\d+$|0[xX][0-9a-fA-F]+$", lit):
-                raise TieError("crcsites: %s: page_header.crc is compared with %r" % (self.where, lit))
+                raise TieError("crcsites: %s: %s is compared with %r" % (self.where, ".".join(p), lit))
             n = int(lit, 0) * (-1 if neg else 1)
             z = "(%d)%%Z" % n
-            return {"<": "(stored <? %s)%%Z", ">": "(%s <? stored)%%Z", "<=": "(stored <=? %s)%%Z", ">=": "(%s <=? stored)%%Z",
-                    "==": "(stored =? %s)%%Z", "!=": "(negb (stored =? %s)%%Z)"}[op] % z
-        raise TieError("crcsites: %s: the checksum decision now depends on `%s`, which the model's page_crc_ok does not know"
+            return {"<": "(V <? %s)%%Z", ">": "(%s <? V)%%Z", "<=": "(V <=? %s)%%Z", ">=": "(%s <=? V)%%Z",
+                    "==": "(V =? %s)%%Z", "!=": "(negb (V =? %s)%%Z)"}[op].replace("V", v) % z
+        raise TieError("crcsites: %s: the checksum decision now depends on `%s`, which the model does not know"
                        % (self.where, ".".join(p)))
+
+
+class _PW(_P):
+    """writer side: writer->write_crc, and sizes / counts of the page being written compared with literals"""
+    flags = {"write_crc": (None, "write_crc")}
+    ints = {"size": (None, "size"), "num_values": (None, "size")}
+
+
+WSRC = "src/writer/page_writer.c"
+
+
+def writer_pair(repo):
+    """(guard of the carquet_crc32 call, guard of the crc field written to the page header) in page_writer.c.
+    The checksum variable must be the one the header writer stores; both must sit in `if (...) {` blocks."""
+    txt = _strip((Path(repo) / WSRC).read_text())
+    calls = [m for m in re.finditer(r"(?<![\w])carquet_crc32\s*\(", txt)
+             if not re.match(r"\s*extern\b", txt[txt.rfind("\n", 0, m.start()) + 1:m.start()])]
+    if len(calls) != 1:
+        raise TieError("crcsites: %s: expected exactly one call of carquet_crc32, found %d" % (WSRC, len(calls)))
+    m = calls[0]
+    where = "%s:%d" % (WSRC, txt.count("\n", 0, m.start()) + 1)
+    mv = re.search(r"(\w+)\s*=\s*$", txt[txt.rfind("\n", 0, m.start()) + 1:m.start()])
+    if not mv:
+        raise TieError("crcsites: %s: the result of carquet_crc32 is not assigned to a variable" % where)
+    var = mv.group(1)
+    ma = re.match(r"\s*(\w+)\s*\.\s*data\s*,\s*(\w+)\s*\.\s*size\s*\)", txt[m.end():m.end() + 120])
+    if not ma or ma.group(1) != ma.group(2):
+        raise TieError("crcsites: %s: the checksum is no longer taken over <buffer>.data, <buffer>.size of one buffer" % where)
+    enc = _enclosing_if(txt, m.start())
+    if enc is None:
+        raise TieError("crcsites: %s: carquet_crc32 is not called inside an `if (...) {` block" % where)
+    g1 = _PW(enc[0], where).disj()
+    mw = [x for x in re.finditer(r"thrift_write_i32\s*\(\s*&?\w+\s*,\s*\(\s*int32_t\s*\)\s*%s\s*\)" % re.escape(var), txt)]
+    if len(mw) != 1:
+        raise TieError("crcsites: %s: expected exactly one thrift_write_i32(.., (int32_t)%s) writing the header's crc field, found %d"
+                       % (WSRC, var, len(mw)))
+    where2 = "%s:%d" % (WSRC, txt.count("\n", 0, mw[0].start()) + 1)
+    enc2 = _enclosing_if(txt, mw[0].start())
+    if enc2 is None:
+        raise TieError("crcsites: %s: the crc field is not written inside an `if (...) {` block" % where2)
+    g2 = _PW(enc2[0], where2).disj()
+    return (" ".join(enc[0].split()), g1), (" ".join(enc2[0].split()), g2)
 
 
 def sites(repo):
@@ -206,11 +251,19 @@ def generate(repo, outdir):
         lines.append("    (fun (has_crc verify : bool) (stored : Z) => %s)%s   (* site %d: if (%s) *)"
                      % (g, ";" if i + 1 < len(ss) else "", i + 1, cond.replace("(*", "( *").replace("*)", "* )")))
     lines += ["  ].", "", "Definition CrcSite_count : nat := %d." % len(ss), ""]
+    (c1, g1), (c2, g2) = writer_pair(repo)
+    cm = lambda c: c.replace("(*", "( *").replace("*)", "* )")
+    lines += ["(** %s, two cooperating sites: when the page's checksum is computed ..." % WSRC,
+              "    (size stands for the sizes / counts of the page being written that a guard compares with literals) *)",
+              "Definition CrcWriter_computes (write_crc : bool) (size : Z) : bool := %s.   (* if (%s) *)" % (g1, cm(c1)), "",
+              "(** ... and when the crc field is written into the page header *)",
+              "Definition CrcWriter_stores (write_crc : bool) (size : Z) : bool := %s.   (* if (%s) *)" % (g2, cm(c2)), ""]
     from vlib import write_if_changed
     write_if_changed(Path(outdir) / "CrcSites_gen.v", "\n".join(lines))
-    return {"crcsites": {"sites": len(ss), "guards": sorted(set(c for _, c, _ in ss))}}
+    return {"crcsites": {"sites": len(ss), "guards": sorted(set(c for _, c, _ in ss)), "writer_computes": c1, "writer_stores": c2}}
 
 
 if __name__ == "__main__":
     for s in sites(sys.argv[1] if len(sys.argv) > 1 else "/repo"):
         print(s)
+    print(writer_pair(sys.argv[1] if len(sys.argv) > 1 else "/repo"))
